@@ -67,7 +67,7 @@ Inductive sop :=
 Record sobs := mkSobs { sb_cls : cls; sb_rels : list (string * Z) }.
 
 Definition st_empty : option srel := None.
-Definition st_dec (b : option srel) : option srel := b.
+Definition st_dec (b : option srel) : option srel := decode_release (fun x => x) b.
 Fixpoint no_space (s : string) : bool :=
   match s with EmptyString => true | String c t => negb (is_space c) && no_space t end.
 Definition st_valid_label (s : string) : bool := no_space s.
@@ -354,22 +354,15 @@ Definition sch := list string.
 Definition sch_validate (s : sch) (values : vmap) : res bool :=
   Ok (forallb (fun k => mhas k values) s).
 
-(* ToRenderValues: CoalesceValues, then ValidateAgainstSchema.  Class only. *)
-Fixpoint sc_to_cchart (c : schart sch) (vals : list (string * vmap)) : Coalesce.chart :=
-  match c with
-  | SChart _ name _ subs =>
-      mkChart name (match aget name vals with Some v => v | None => [] end)
-              ((fix go (l : list (schart sch)) : list Coalesce.chart :=
-                  match l with [] => [] | x :: t => sc_to_cchart x vals :: go t end) subs)
-  end.
-
-Definition schema_run (direct : bool) (c : schart sch) (defaults : list (string * vmap)) (v : vmap) : cls :=
+(* ToRenderValues: CoalesceValues (on the chart tree with each chart's own values.yaml, given
+   as a Coalesce.chart), then ValidateAgainstSchema.  Class only. *)
+Definition schema_run (direct : bool) (c : schart sch) (cc : Coalesce.chart) (v : vmap) : cls :=
   if direct then
     match validate_schema sch sch_validate true c v with
     | Ok true => COk | Ok false => CErr | Err => CErr | Panic _ => CPanic
     end
   else
-    match coalesce_values_root (sc_to_cchart c defaults) v with
+    match coalesce_values_root cc v with
     | None => CErr
     | Some cv =>
         match validate_schema sch sch_validate true c cv with
@@ -394,7 +387,7 @@ Inductive case :=
 | CIndex (o : index_oracle) (bad_rest : list (string * string)) (r : rawindex) (qs : list iquery)
          (mg : option (list (string * string) * rawindex)) (obs : iobs)
 | CManifest (fs : list mfile) (obs : mobs)
-| CSchema (direct : bool) (c : schart sch) (defaults : list (string * vmap)) (v : vmap) (obs : cls)
+| CSchema (direct : bool) (c : schart sch) (cc : Coalesce.chart) (v : vmap) (obs : cls)
 | CStrvals (m : pmode) (input : string) (obs : cls)
 | CExplore (obs : cls).          (* raw / mutated input on the real code only: nothing to compare,
                                     the runtime oracle judges it *)
@@ -405,7 +398,7 @@ Definition case_ok (c : case) : bool :=
   | CChart o c v obs => cobs_eqb (chart_proj (chart_run o c v)) obs
   | CIndex o bad r qs mg obs => iobs_eqb (index_run o bad r qs mg) obs
   | CManifest fs obs => mobs_eqb (man_run fs) obs
-  | CSchema direct c d v obs => cls_eqb (schema_run direct c d v) obs
+  | CSchema direct c cc v obs => cls_eqb (schema_run direct c cc v) obs
   | CStrvals m input obs => cls_eqb (strvals_run m input) obs
   | CExplore _ => true
   end.
